@@ -103,7 +103,77 @@ type C15Wrap struct {
 	A   any
 }
 
+// opaque leaf kinds: slices, funcs, channels are never navigated, only moved as a whole.  All three
+// have a nil value; the field mapping code accepts an untyped nil for the slice only (its lists of
+// kinds: Map, Slice, Ptr, Interface).
+type C15Opq struct {
+	S   string
+	N   int
+	SS  []string
+	F   func() string
+	C   chan int
+	PL  *C15Leaf
+	L   C15Leaf
+	A   any
+	MSS map[string][]string
+	MF  map[string]func() string
+	MC  map[string]chan int
+	MA  map[string]any
+}
+
 type c15J = map[string]any
+
+// the non-nil values of the opaque types, by token: a value of an opaque type travels to the
+// oracle as {"k":"str","s":token} (the model never looks inside), nil as {"k":"nil"}
+type c15OpqVal struct {
+	tok string
+	v   reflect.Value
+}
+
+var c15OpqVals = map[reflect.Type][]c15OpqVal{}
+
+func c15OpqReg(tok string, v any) {
+	rv := reflect.ValueOf(v)
+	c15OpqVals[rv.Type()] = append(c15OpqVals[rv.Type()], c15OpqVal{tok, rv})
+}
+
+func c15IsOpq(rt reflect.Type) bool {
+	switch rt.Kind() {
+	case reflect.Slice, reflect.Func, reflect.Chan:
+		return true
+	}
+	return false
+}
+
+func c15OpqKind(rt reflect.Type) string {
+	switch rt.Kind() {
+	case reflect.Slice:
+		return "slice"
+	case reflect.Func:
+		return "func"
+	case reflect.Chan:
+		return "chan"
+	}
+	return ""
+}
+
+// c15OpqTok: the token of a non-nil opaque value (identity for funcs and channels, contents for
+// slices); a value the harness never made gets a token that matches nothing
+func c15OpqTok(v reflect.Value) string {
+	for _, o := range c15OpqVals[v.Type()] {
+		switch v.Kind() {
+		case reflect.Slice:
+			if reflect.DeepEqual(o.v.Interface(), v.Interface()) {
+				return o.tok
+			}
+		default:
+			if o.v.Pointer() == v.Pointer() {
+				return o.tok
+			}
+		}
+	}
+	return "?" + v.Type().String()
+}
 
 // c15TypeInfo: one root type of the menu (usable as predecessor output and successor input).
 type c15TypeInfo struct {
@@ -184,9 +254,26 @@ func init() {
 	c15Reg[*C15PM]("PPM")
 	c15Reg[map[string]*map[string]int]("MapPMap")
 	c15Reg[map[string]C15EmbV]("MapEmbV")
+	c15OpqReg("ss0", []string{})
+	c15OpqReg("ss1", []string{"a"})
+	c15OpqReg("ss2", []string{"a", "b"})
+	c15OpqReg("is1", []int{4})
+	c15OpqReg("f1", func() string { return "f1" })
+	c15OpqReg("f2", func() string { return "f2" })
+	c15OpqReg("g1", func(int) int { return 1 })
+	c15OpqReg("c1", make(chan int, 1))
+	c15OpqReg("c2", make(chan int, 1))
+	c15OpqReg("d1", make(chan string, 1))
+	c15Reg[C15Opq]("Opq")
+	c15Reg[*C15Opq]("POpq")
+	c15Reg[map[string][]string]("MapSS")
+	c15Reg[map[string]func() string]("MapFunc")
+	c15Reg[map[string]chan int]("MapChan")
 	for _, rt := range []reflect.Type{reflect.TypeOf(map[string]map[string]string{}), reflect.TypeOf(map[string]*C15Leaf{}),
 		reflect.TypeOf(C15Base{}), reflect.TypeOf(&C15Base{}), reflect.TypeOf(C15Emb2P{}), reflect.TypeOf(&C15Emb2{}),
-		reflect.TypeOf(map[string]*C15EmbP{}), reflect.TypeOf(&map[string]string{}), reflect.TypeOf(&map[string]int{})} {
+		reflect.TypeOf(map[string]*C15EmbP{}), reflect.TypeOf(&map[string]string{}), reflect.TypeOf(&map[string]int{}),
+		reflect.TypeOf([]string{}), reflect.TypeOf([]int{}), reflect.TypeOf((func() string)(nil)), reflect.TypeOf((func(int) int)(nil)),
+		reflect.TypeOf((chan int)(nil)), reflect.TypeOf((chan string)(nil))} {
 		c15RegDesc(rt)
 	}
 	c15InitEmb()
@@ -299,8 +386,11 @@ func c15InitEmb() {
 }
 
 // c15TyDesc: {"k":"str"|"int"|"any"} | {"k":"ptr"|"map","e":T} | {"k":"struct","name":..,"fields":[{"n","t"}]}
+// | {"k":"opq","kind":"slice"|"func"|"chan","name":Go spelling}
 func c15TyDesc(rt reflect.Type) c15J {
 	switch rt.Kind() {
+	case reflect.Slice, reflect.Func, reflect.Chan:
+		return c15J{"k": "opq", "kind": c15OpqKind(rt), "name": rt.String()}
 	case reflect.String:
 		return c15J{"k": "str"}
 	case reflect.Int:
@@ -338,6 +428,11 @@ func c15EncD(v reflect.Value, depth int) c15J {
 		return c15J{"k": "str", "s": v.String()}
 	case reflect.Int:
 		return c15J{"k": "int", "i": v.Int()}
+	case reflect.Slice, reflect.Func, reflect.Chan:
+		if v.IsNil() {
+			return c15J{"k": "nil"}
+		}
+		return c15J{"k": "str", "s": c15OpqTok(v)}
 	case reflect.Interface:
 		if v.IsNil() {
 			return c15J{"k": "nil"}
@@ -392,6 +487,18 @@ func c15Dec(d c15J, rt reflect.Type) (reflect.Value, error) {
 	out := reflect.New(rt).Elem()
 	k, _ := d["k"].(string)
 	switch rt.Kind() {
+	case reflect.Slice, reflect.Func, reflect.Chan:
+		if k == "nil" {
+			return out, nil
+		}
+		tok, _ := d["s"].(string)
+		for _, o := range c15OpqVals[rt] {
+			if o.tok == tok {
+				out.Set(o.v)
+				return out, nil
+			}
+		}
+		return out, fmt.Errorf("c15Dec: no value %q of type %v", tok, rt)
 	case reflect.String:
 		if k != "str" {
 			return out, fmt.Errorf("c15Dec: %s at string", k)
